@@ -163,6 +163,10 @@ def _display_table(chk, pf):
     asg = assignments(pf.node)
     dnames = {n for n, vals in asg.items() for v in vals if isinstance(v, ast.AST) and "Display" in norm(v) and ".get(" in norm(v)}
     ms = [m for m in walk_no_nested(pf.node) if isinstance(m, ast.Match) and ("Display" in norm(m.subject) or norm(m.subject) in dnames)]
+    if not ms:
+        t = _display_lookup_table(chk, pf, dnames)
+        if t is not None:
+            return t
     chk.require(len(ms) == 1, "_parse_fragment: Display dispatch not found")
     m = ms[0]
     # hoisted swap
@@ -199,6 +203,82 @@ def _display_table(chk, pf):
                 a, b = b, a
             rows[lit] = (a, b, sval, k)
     return m, rows
+
+
+def _display_lookup_table(chk, pf, dnames):
+    """Data-driven form of the dispatch:  `row = TABLE.get(<display>)` with TABLE a module-level dict display
+    {literal: (flag, sign) | sign}; `flag, sign = row`; `if flag: i1, i2 = i2, i1`; one `_cdxml_3dify_(result, i1, i2, sign=sign)`.
+    Evaluated per key into the same rows as the match form."""
+    top = pf.module.top
+    look = []
+    for n in walk_no_nested(pf.node):
+        v, tgt = None, None
+        if isinstance(n, ast.NamedExpr):
+            v, tgt = n.value, n.target.id
+        elif isinstance(n, ast.Assign) and len(n.targets) == 1 and isinstance(n.targets[0], ast.Name):
+            v, tgt = n.value, n.targets[0].id
+        if v is None or not isinstance(v, (ast.Call, ast.Subscript)):
+            continue
+        if isinstance(v, ast.Call) and isinstance(v.func, ast.Attribute) and v.func.attr == "get" and isinstance(v.func.value, ast.Name) and v.args:
+            tname, key = v.func.value.id, v.args[0]
+        elif isinstance(v, ast.Subscript) and isinstance(v.value, ast.Name):
+            tname, key = v.value.id, v.slice
+        else:
+            continue
+        d = top.get(tname)
+        if not (isinstance(d, (ast.Assign, ast.AnnAssign)) and isinstance(d.value, ast.Dict)):
+            continue
+        if not ("Display" in norm(key) or norm(key) in dnames):
+            continue
+        look.append((tgt, d.value, n))
+    if len(look) != 1:
+        return None
+    row, table, node = look[0]
+    calls = [x for x in walk_no_nested(pf.node) if isinstance(x, ast.Call) and call_name(x) == "_cdxml_3dify_"]
+    if len(calls) != 1:
+        raise AnalysisError("_parse_fragment: table-driven Display dispatch with more than one _cdxml_3dify_ call - unknown idiom")
+    k = calls[0]
+    # names bound from the row
+    fields = {}
+    for s in walk_no_nested(pf.node):
+        if isinstance(s, ast.Assign) and isinstance(s.value, ast.Name) and s.value.id == row and isinstance(s.targets[0], ast.Tuple):
+            for i, t in enumerate(s.targets[0].elts):
+                if isinstance(t, ast.Name):
+                    fields[t.id] = i
+    sg = kwarg(k, "sign")
+    a, b = norm(k.args[1]), norm(k.args[2])
+    swap_field = None
+    for g in walk_no_nested(pf.node):
+        if isinstance(g, ast.If) and isinstance(g.test, ast.Name) and g.test.id in fields and not g.orelse:
+            sw = [s for s in g.body if isinstance(s, ast.Assign) and isinstance(s.targets[0], ast.Tuple) and isinstance(s.value, ast.Tuple) and len(s.value.elts) == 2
+                  and [norm(x) for x in s.targets[0].elts] == [norm(x) for x in reversed(s.value.elts)] and {norm(x) for x in s.value.elts} == {a, b}]
+            if sw:
+                swap_field = fields[g.test.id]
+    rows = {}
+    for kk, vv in zip(table.keys, table.values):
+        if not (isinstance(kk, ast.Constant) and isinstance(kk.value, str)):
+            raise AnalysisError("_parse_fragment: Display table key is not a string literal")
+        try:
+            val = ast.literal_eval(vv)
+        except Exception:
+            raise AnalysisError(f"Display table row {kk.value!r} is not a literal")
+        tup = val if isinstance(val, tuple) else (val,)
+        if sg is None:
+            sval = 1
+        elif isinstance(sg, ast.Name) and sg.id in fields:
+            sval = tup[fields[sg.id]]
+        elif isinstance(sg, ast.Name) and sg.id == row and not isinstance(val, tuple):
+            sval = val
+        else:
+            try:
+                sval = ast.literal_eval(sg)
+            except Exception:
+                raise AnalysisError("_parse_fragment: sign is neither a literal nor a field of the table row")
+        x, y = a, b
+        if swap_field is not None and tup[swap_field]:
+            x, y = y, x
+        rows[kk.value] = (x, y, sval, k)
+    return node, rows
 
 
 def r3_wedge_table(chk, cf):
@@ -379,12 +459,40 @@ def r5_determinism(chk, cf):
     else:
         chk.ok("C13.R5", f"{pf.key}:no-hidden-state-reachable", pf.where(), f"{len(paths)} functions reachable from __getitem__/_parse_fragment; none reads hidden state")
     # cache discipline: every branch that resolves a fragment stores exactly that fragment under the key before parsing
-    stores = [s for s in walk_no_nested(gi.node) if isinstance(s, ast.Assign) and norm(s.targets[0]) == "self.xfrag_cache[key]"]
-    ok = len(stores) == 2 and all(norm(s.value) == "frag" for s in stores)
-    rets = [s for s in walk_no_nested(gi.node) if isinstance(s, ast.Return)]
-    ok = ok and len(rets) == 1 and norm(rets[0].value).startswith("self._parse_fragment(frag")
-    hit = [g for g in walk_no_nested(gi.node) if isinstance(g, ast.If) and norm(g.test) == "key in self.xfrag_cache"]
-    ok = ok and len(hit) == 1 and any(norm(s) == "frag = self.xfrag_cache[key]" for s in hit[0].body)
+    # stated on the flow graph: no path reaches `return self._parse_fragment(F, ...)` without either reading F from the
+    # cache or storing into the cache the very fragment that flows into F
+    from ..cfg import CFG
+
+    kname = gi.params()[1]
+    slot = f"self.xfrag_cache[{kname}]"
+    rets = [s for s in walk_no_nested(gi.node) if isinstance(s, ast.Return) and isinstance(s.value, ast.Call) and norm(s.value.func) == "self._parse_fragment" and s.value.args]
+    ok = len(rets) == 1 and isinstance(rets[0].value.args[0], ast.Name)
+    if ok:
+        fvar = rets[0].value.args[0].id
+        asg = assignments(gi.node)
+        flows = {fvar}  # locals whose value is copied into the returned fragment variable
+        grow = True
+        while grow:
+            grow = False
+            for nm in list(flows):
+                for v in asg.get(nm, []):
+                    if isinstance(v, ast.NamedExpr):
+                        v = v.target
+                    if isinstance(v, ast.Name) and v.id not in flows:
+                        flows.add(v.id)
+                        grow = True
+        stores = [s for s in walk_no_nested(gi.node) if isinstance(s, ast.Assign) and norm(s.targets[0]) == slot]
+        reads = [s for s in walk_no_nested(gi.node) if isinstance(s, ast.Assign) and norm(s.value) == slot and isinstance(s.targets[0], ast.Name)]
+        ok = bool(stores) and bool(reads) and all(isinstance(s.value, ast.Name) and s.value.id in flows for s in stores) and all(s.targets[0].id in flows for s in reads)
+        # a cache read happens only where the key is known to be cached
+        from ..canon import path_conditions
+
+        ok = ok and all(f"{kname} in self.xfrag_cache" in [norm(c) for c in path_conditions(gi.node, s)] for s in reads)
+        if ok:
+            cfg = CFG(gi.node)
+            marks = {n.id for n in cfg.nodes if n.kind == "stmt" and any(n.ast is s for s in stores + reads)}
+            goal = {n.id for n in cfg.nodes if n.kind == "stmt" and n.ast is rets[0]}
+            ok = bool(goal) and cfg.path([cfg.entry], goal, avoid=marks) is None
     chk.decide(ok, "C13.R5", f"{gi.key}:label-resolves-to-one-fragment", gi.where(), "cache hit returns the cached fragment; both resolution branches cache the fragment they return",
                "the label -> fragment resolution does not cache exactly the fragment it returns in every branch: the same label can resolve differently on a later call")
 
